@@ -408,11 +408,47 @@ def r6_no_derived_state(ctx):
                           "a value derived from the unit tables must not outlive the scope that registered the unit")
 
 
+def r7_duplicate_check(ctx):
+    """Appending to the unit table under an existing symbol replaces the entry, and close() then deletes it: the
+    table would lose a built-in (or an enclosing scope's) unit.  So on every path of the registration loop that
+    reaches the append, the symbol was tested against the table and found absent."""
+    import re as _re
+    from ..flowexpr import explore
+    fn = ctx.fn(UE, "UnitEnvironment.__init__")
+    ex = explore(fn)
+    what = "every registration path tests the symbol against the unit table before appending"
+    seen = 0
+    for lp, start, its in ex.iterations.values():
+        for q in its:
+            apps = [e for e in q.events[start:] if e.resolved is not None and isinstance(e.resolved, ast.AST) and any(
+                isinstance(c, ast.Call) and norm(c.func) == "UNIT_STANDARD.append" for c in ast.walk(e.resolved))]
+            if not apps:
+                continue
+            seen += 1
+            sym = None
+            for c in ast.walk(apps[0].resolved):
+                if isinstance(c, ast.Call) and norm(c.func) == "UNIT_STANDARD.append" and c.args:
+                    sym = norm(c.args[0])
+            tested = False
+            for t in q.tests():
+                k = norm(t.resolved)
+                if k == f"{sym} in UNIT_STANDARD" and t.extra is False or k == f"{sym} not in UNIT_STANDARD" and t.extra is True:
+                    tested = True
+            if tested:
+                ctx.holds(UE, "UnitEnvironment.__init__", what)
+            else:
+                others = [norm(t.resolved) + f" -> {t.extra}" for t in q.tests()][:4]
+                ctx.violated(UE, "UnitEnvironment.__init__", what, detail={"path reaches": norm(apps[0].resolved)[:70], "tests on this path": others},
+                             expected=f"if {sym} in UNIT_STANDARD: raise")
+    ctx.form(seen >= 1, UE, "UnitEnvironment.__init__", "the registration loop with the append to the unit table is found")
+
+
 RULES = [
     ("C09.R1", "who-may-write: only UnitEnvironment.__init__/close mutate UNIT_STANDARD/UNIT_PREFIXES/UNIT_TYPES/QUANTITY_* (direct, aliased, row-level, container calls)", r1_single_writer),
     ("C09.R2", "do/undo pairing: each table mutation is followed at once, in the same block, by recording its key; close() applies the inverse operation per recorded key on the same table and writes nothing else", r2_pairing),
     ("C09.R3", "all exits of registration: every mutation and every may-raise statement after one is inside a try whose handler calls close() and re-raises", r3_undo_on_failure),
     ("C09.R4", "every UnitEnvironment construction is a with-context (or closed in a finally); __exit__ closes unconditionally", r4_lexical_scopes),
     ("C09.R5", "no with-scope is re-entered with the same units from methods of the same object reachable from its body", r5_no_reentry),
+    ("C09.R7", "every path of the registration loop that appends to the unit table has tested the symbol against the table (an existing entry would be replaced and then deleted by close())", r7_duplicate_check),
     ("C09.R6", "who-may-hold-state: besides the registered tables no module-level container of units/ or dip/ is written from a function and no function is memoised (a memo of table-derived values outlives the scope)", r6_no_derived_state),
 ]
